@@ -119,10 +119,10 @@ def check(rep, ctx):
                         rep.check(R_D, False, construct=fn, stmt=timeflow.show(wd["conv"]),
                                   message=f"time conversion not understood: {timeflow.show(wd['conv'])}", instance=construct)
                     for rule, msg, op in issues:
-                        if rule in ("T-float64", "T-trunc"):
+                        if rule in ("T-float64", "T-trunc", "T-epoch"):
                             rep.check(R_D, False, construct=fn, stmt=timeflow.show(wd["conv"]), message=f"{rule}: {msg}",
                                       instance=construct, **W.codec_loc({"fn": fn, "line": wd.get("_line", 0)}))
-                    if not [i for i in issues if i[0] in ("T-float64", "T-trunc")] and q is not None:
+                    if not [i for i in issues if i[0] in ("T-float64", "T-trunc", "T-epoch")] and q is not None:
                         rep.check(R_D, True, construct=fn, stmt=timeflow.show(wd["conv"]), instance=construct)
     W.finish(rep)
     rep.extra.update(classes=len(S.classes), engine_stats=W.bundle.get("stats"))
